@@ -12,7 +12,7 @@ ENGINES = [
     dict(name="kani-harnesses", path="/verif/vk/kani_unit.py", serves_properties=["C01", "C02", "C08", "C09", "C12"],
          kind_free_text="cargo kani on the real crate; harness files /verif/kani/*_proofs.rs are compiled into the defining modules through cfg(kani) hooks; "
                         "loop-free full-domain harnesses are complete, harnesses with symbolic strings are bounded stand-ins and never counted as proved"),
-    dict(name="verus-units", path="/verif/vk/verus_unit.py", serves_properties=["C01", "C02", "C03", "C07", "C08", "C09", "C10", "C12", "C13", "C15", "C16", "C17", "C19", "C20"],
+    dict(name="verus-units", path="/verif/vk/verus_unit.py", serves_properties=["C01", "C02", "C03", "C06", "C07", "C08", "C09", "C10", "C12", "C13", "C15", "C16", "C17", "C19", "C20"],
          kind_free_text="mechanical extraction of the real functions (vk/extract.py, rules R1-R8) + contracts/<unit>.vc, discharged by Verus 0.2026.09.13 / Z3; "
                         "every diagnostic is mapped back to a named obligation (function::label)"),
 ]
@@ -110,6 +110,20 @@ CHECKS = {
         level_note="Sequential semantics. That the three transports call Client::left exactly once per ended session is glue (checked only by the bounded "
                    "sweep through the public API). get_mut / mem::replace have trusted specs.",
     ),
+    "C06": dict(
+        engine="verus-units", design_ref="DESIGN.md §10 'C06 contract notes'", technique="deductive verification (Verus/Z3) of function contracts, loop invariants and lemmas on the extracted real disk writer and loader, over an abstract disk image",
+        text="For every database state, every key/value length and both snapshot modes: the REAL NodeDrive::storage_data_disk produces exactly the per-state write "
+             "plan of the statement (New / reclaimed: one value record and one key record appended; Updated: value appended and the key's version and address "
+             "rewritten in place, or re-appended when reclaiming; Deleted: version -1 written in place, nothing when reclaiming; Ok: untouched), every address it "
+             "records - on disk and in memory - is the offset at which that record really starts, in-place writes stay inside the key file, and memory keeps every "
+             "value and version with every written key marked persisted; write_value / write_key / update_key produce the exact byte layouts; the REAL loader "
+             "create_db_from_file_name turns any well-formed image into exactly the map the image means (records with version -1 skipped, later records win, each value "
+             "taken from the address its key record names, all entries Ok); and the writer's layout and the loader's layout are inverse (round-trip lemmas). "
+             "A bounded native sweep runs set/remove/increment/snapshot/restart histories on the real code and compares the reloaded database with the snapshotted one.",
+        level_note="The unbounded part is per call: writer == plan, loader == meaning of the image, layouts inverse. That the plan's image of an INCREMENTAL snapshot loads "
+                   "back to the snapshotted state needs a cross-snapshot invariant that is assumed as a precondition, not established; only the bounded sweep "
+                   "covers whole histories. Metadata (id, strategy), file-system glue and torn files are not decided.",
+    ),
     "C07": dict(
         engine="verus-units", design_ref="DESIGN.md §10 'C07 contract notes'", technique="deductive verification (Verus/Z3) of function contracts, loop invariants and termination measures on the extracted real election_ops functions (single-node clauses only)",
         text="Single-call half of the statement, for all start times, roles, member counts and whatever the pending-operation table answers: the REAL election_eval makes "
@@ -169,7 +183,6 @@ CHECKS = {
 NOT_APPLICABLE = {
     "C04": "Convergence quantifies over message delivery orders between 2-3 processes; no contract on one call can state it and the code that forwards/fans out is the dyn-Fn dispatcher and async loops neither verifier accepts.",
     "C05": "Resynchronisation is a two-node protocol over sockets; the sync emitters build their lines inline while iterating HashMaps (Kani cannot, Verus has no string formatting), so even the encode/parse round trip of the sync line is out of reach.",
-    "C06": "Snapshot/restore relates two runs through std::fs files written by one 110-line function with three buffered writers plus in-place write_at; deciding it needs a file-system model and a cross-snapshot offset invariant beyond what could be brought within Verus' reach; Kani has no file I/O and cannot build the map.",
     "C11": "Crash points of a writer are not expressible as pre/postconditions of a call; neither verifier has a crash-consistent file model.",
     "C14": "A bound on inter-node traffic is a global ranking argument over the dispatcher and the replication loop on several nodes.",
     "C18": "Both S3 strategies are async AWS-SDK network code inside a tokio runtime.",
